@@ -65,6 +65,8 @@ func checkC13(rep *core.Report) {
 		}
 	}
 	// ---- R13.6: premise shared with C12: two in-flight datagrams never share a buffer ----
+	r7 := rep.Rule("R13.7", "the stats snapshot reports every counter from its own field (and queue lengths from the protocol's own queues)", 12)
+	checkStatsSnapshot(prog, r7)
 	r6 := rep.Rule("R13.6", "premise (shared with C12): a datagram's receive buffer is released at most once per iteration and never used after release", 4)
 	for _, p := range pipes {
 		if p.worker != nil && p.recv != nil {
@@ -393,4 +395,49 @@ func recvValue(recv ssa.Instruction) ssa.Value {
 		}
 	}
 	return nil
+}
+
+// checkStatsSnapshot (R13.7): in every status() method the field F of the snapshot it returns is filled by an atomic
+// load of the field of the same name of the protocol's counters (or by len of a queue). A snapshot that reports one
+// counter under another's name makes the published/received/decoded accounting unverifiable from the stats API.
+func checkStatsSnapshot(prog *core.Program, rr *core.RuleRun) {
+	n := 0
+	for _, fn := range prog.RepoFuncs() {
+		if core.PkgRel(fn) != "vflow" || fn.Name() != "status" || fn.Signature.Recv() == nil {
+			continue
+		}
+		name := core.FuncName(fn)
+		allInstrs(fn, func(ins ssa.Instruction) {
+			st, ok := ins.(*ssa.Store)
+			if !ok {
+				return
+			}
+			fa, ok := st.Addr.(*ssa.FieldAddr)
+			if !ok {
+				return
+			}
+			if _, isAlloc := fa.X.(*ssa.Alloc); !isAlloc {
+				return
+			}
+			_, dst, ok := core.FieldOf(fa)
+			if !ok {
+				return
+			}
+			call, isCall := st.Val.(*ssa.Call)
+			if !isCall {
+				return
+			}
+			cn := calleeName(call)
+			if !strings.HasPrefix(cn, "sync/atomic.Load") {
+				return
+			}
+			n++
+			_, src, ok2 := core.FieldOf(call.Common().Args[0])
+			rr.Check(ok2 && src.Name() == dst.Name(), name+":"+dst.Name(), st.Pos(), "reported from the counter of the same name",
+				fmt.Sprintf("the snapshot field %s is loaded from the counter %s: the stats API reports one quantity under another's name", dst.Name(), fname(src)))
+		})
+	}
+	if n == 0 {
+		rr.Undecided("status:snapshots", token.NoPos, "no status() snapshot with atomic loads found")
+	}
 }
